@@ -650,6 +650,15 @@ h_VSsetfields_new(void)
             g_exp_total += sz;
         else
             g_exp_ok = 0;
+#ifdef SF_USERONLY /* scenario: every requested name is a user-defined field */
+        {
+            int usr = 0;
+            for (int j = 0; j < SF_NUSYM; j++)
+                if (spec_streq(g_av[i], usym[j].name))
+                    usr = 1;
+            H4V_ASSUME(usr);
+        }
+#endif
         if (i == g_k) {
             g_exp_isize = sz;
             g_exp_type  = t;
@@ -659,12 +668,16 @@ h_VSsetfields_new(void)
     }
     int r = VSsetfields(7, fields_null ? NULL : "x");
     H4V_COVER(r == SUCCEED && vs->wlist.n == SF_AC, "VSsetfields sets all requested fields");
-#if SF_AC >= 2 && SF_NUSYM >= 1
+#if SF_AC >= 2 && SF_NUSYM >= 1 && !defined(SF_USERONLY)
     H4V_COVER(r == SUCCEED && vs->wlist.type[0] == DFNT_FLOAT32 && vs->wlist.order[1] == 3, "VSsetfields mixes predefined and user fields");
     H4V_COVER(r == SUCCEED && vs->wlist.ivsize == 65535, "VSsetfields accepts a record of exactly 65535 bytes");
     H4V_COVER(r == FAIL && g_exp_ok && g_exp_total == 65536 && !fields_null && scan_ret == SUCCEED, "VSsetfields refuses a 65536-byte record");
 #endif
+#ifndef SF_USERONLY
     H4V_COVER(r == FAIL && !g_exp_ok && !fields_null && scan_ret == SUCCEED, "VSsetfields refuses an undefined name");
+#else
+    H4V_COVER(r == FAIL && g_exp_total > MAX_FIELD_SIZE, "VSsetfields refuses user fields that add up to more than 65535 bytes");
+#endif
     H4V_CANARY("VSsetfields end");
 }
 
